@@ -39,6 +39,17 @@ Definition all_have_extractor (inv : inventory) : bool := forallb k_has_extracto
 (* well-formedness the property asks of every emitted package *)
 Definition wf_emitted (k : pkg) : bool := nonempty (k_name k) && negb (match k_locations k with [] => true | _ => false end).
 
+(* extractors known to emit packages without any location (known findings; oracle domain) *)
+Definition s_dotnet_pe : bytes := [100;111;116;110;101;116;47;112;101]%N.
+Definition s_chrome_extensions : bytes := [99;104;114;111;109;101;47;101;120;116;101;110;115;105;111;110;115]%N.
+Definition known_no_location_extractors : list bytes := [s_dotnet_pe; s_chrome_extensions].
+(* rust/cargotoml emits a package for the [package] table even when the manifest has none (empty name and version) *)
+Definition s_rust_cargotoml : bytes := [114;117;115;116;47;99;97;114;103;111;116;111;109;108]%N.
+Definition known_empty_name_extractors : list bytes := [s_rust_cargotoml].
+Definition wf_emitted_D (k : pkg) : bool :=
+  (nonempty (k_name k) || one_of (k_extractor k) known_empty_name_extractors) &&
+  (negb (match k_locations k with [] => true | _ => false end) || one_of (k_extractor k) known_no_location_extractors).
+
 Definition layer_in_int32 (k : pkg) : bool :=
   match k_layer k with
   | None => true
